@@ -453,6 +453,11 @@ def stepT (st : DState) (line : String) : DState × Option String :=
     match s.toNat? with
     | some s => ({ st with wall := st.wall + s }, none)
     | none => (st, some "bad-op")
+  | ["newq"] =>
+    -- `create_session` without a following read: the session exists, active at the current clock (`Service::CreateSession`
+    -- calls `Session::Activate`), and is the current one; no observation line
+    let r := step st "new"
+    (r.1.touch [r.1.cur], none)
   | ["cleanup_stale"] =>
     let stale := st.svc.live.filter (fun k =>
       match st.lastActive.find? (·.1 == k) with
